@@ -52,6 +52,7 @@ class State:
         self.region = None
         self.escaped = []
         self.entries = 0
+        self.none_returns = 0       # trace_call invocations that returned None (= "stop tracing this frame")
         self.record = False         # counting run: remember the region of every internal call
         self.regions = []
         self.lock = threading.Lock()
@@ -149,7 +150,10 @@ def _make_wrapper(fn, label, is_entry):
             t.depth += 1
             st.entries += 1
             try:
-                return fn(*a, **kw)
+                r = fn(*a, **kw)
+                if r is None:
+                    st.none_returns += 1
+                return r
             except BaseException as e:      # noqa: B902
                 st.escaped.append(type(e).__name__)
                 raise
@@ -294,4 +298,4 @@ def report():
             break
     return {'count': st.count, 'fired': st.fired, 'stack': list(st.stack), 'region': st.region,
             'invs': [lab for _, lab in st.invs], 'n_passed': len(passed), 'catcher': catcher,
-            'escaped': list(st.escaped), 'entries': st.entries}
+            'escaped': list(st.escaped), 'entries': st.entries, 'none_returns': st.none_returns}
